@@ -245,13 +245,13 @@ Qed.
 
 Lemma next_native_offset_cinv st f st' idx cu :
   CInv st -> next_native_offset st f = Ok (st', idx, cu) ->
-  CInv st' /\ dl_le (r_datalog st) (r_datalog st') /\ cview st' = (r_trackers st, r_notif st, r_graveyard st, r_obufs st, r_groups st, r_datalog st') /\
+  CInv st' /\ dl_le (r_datalog st) (r_datalog st') /\
   CurOk (r_datalog st') idx cu /\ al_get str_eqb f (dl_findex (r_datalog st')) = Some idx.
 Proof.
   intros HI H. unfold next_native_offset in H.
   destruct (al_get str_eqb f (dl_findex (r_datalog st))) as [i|] eqn:Ef.
   - apply bind_ok in H as (d & Hd & H). apply native_get_Some in Hd. apply bind_ok in H as (c & Hc & H). inv_ok.
-    split; [exact HI|]. split; [apply dl_le_refl|]. split; [reflexivity|]. split; [|exact Ef].
+    split; [exact HI|]. split; [apply dl_le_refl|]. split; [|exact Ef].
     destruct HI as [LI _]. destruct (li_wf _ LI _ _ Hd) as [all W].
     destruct (next_offset_ok pubdata_size _ _ _ W Hc) as (-> & Hiss & _ & _).
     exists d. split; [exact Hd|]. split; [exact Hiss|]. cbn [snd]. rewrite (wf_end_of pubdata_size _ _ W). lia.
@@ -267,7 +267,7 @@ Proof.
     assert (LI' : LogsInv dl').
     { constructor; [exact Hfr'|]. intros j d0. unfold nget. cbn [dl' dl_native]. rewrite Hg.
       destruct (j =? idx); [intros E; inversion E; subst; eauto|]. apply (li_wf _ LI). }
-    split; [|split; [exact Hle|split; [reflexivity|split]]].
+    split; [|split; [exact Hle|split]].
     + split; [exact LI'|]. cbn [r_datalog set_r_datalog].
       eapply cinvd_mono; [exact LI|exact Hle|]. apply cinvd_set_datalog; [exact CI|].
       intros j d0. unfold nget. cbn [dl' dl_native]. rewrite Hg.
